@@ -591,6 +591,10 @@ def _check_edge_overlap(begin: sc.Variable, end: sc.Variable) -> None:
     begin, end = edges['edge', 0], edges['edge', 1]
     if sc.any(begin[1:] <= end[:-1]):
         raise ValueError('The chopper has overlapping slits.')
+    # The last slit may extend past top-dead-center and wrap around onto the first.
+    full_turn = sc.scalar(360.0, unit='deg').to(unit=begin.unit)
+    if len(begin) > 0 and sc.any(begin[0] + full_turn < end[-1]):
+        raise ValueError('The chopper has overlapping slits.')
 
 
 def _broadcast_slit_height(
